@@ -18,6 +18,7 @@ from .kinds import (
     kw_of,
     BOOL,
     EID,
+    POS,
     EMPTY,
     IDX,
     LAYER,
@@ -965,8 +966,19 @@ class Interp:
         return TOP
 
     def ex_NamedExpr(self, node, env, fr):
+        # a test is evaluated more than once (for the value, then for narrowing each branch): a walrus that re-binds one of its
+        # own operands (`(edge := canon(edge)) not in T`) must not be applied to its own result
+        cache = getattr(fr, "walrus", None)
+        if cache is None:
+            cache = fr.walrus = {}
+        tgt = node.target.id if isinstance(node.target, ast.Name) else None
+        uses_target = tgt is not None and any(isinstance(x, ast.Name) and x.id == tgt for x in ast.walk(node.value))
+        if uses_target and id(node) in cache and env.get(tgt) == cache[id(node)]:
+            return cache[id(node)]
         k = self.ev(node.value, env, fr)
         self.assign(node.target, k, env, fr, node.value)
+        if uses_target:
+            cache[id(node)] = k
         return k
 
     # ================================================================ calls
@@ -1087,6 +1099,14 @@ class Interp:
         return bound
 
     def call_repo(self, fi: FunctionInfo, node, args, kwargs, star_kw, env, fr, recv=None, is_ctor=False) -> K:
+        k = self._call_repo(fi, node, args, kwargs, star_kw, env, fr, recv, is_ctor)
+        if fi.cls is not None and fi.name == "get_nodes" and fi.cls.name in T.CONTAINERS:
+            # the node universe of a directed hypergraph is listed from one of the two role tables (both hold every node):
+            # as the result of the public query the nodes have no role
+            k = unrole(k)
+        return k
+
+    def _call_repo(self, fi: FunctionInfo, node, args, kwargs, star_kw, env, fr, recv=None, is_ctor=False) -> K:
         guessed = isinstance(recv, Obj) and recv.extra == ("DUCK",) and not is_ctor
         if guessed:
             fr = _SoftFrame(fr)
@@ -1206,7 +1226,7 @@ class Interp:
         if name == "range":
             return Lst(NUM, sorted=True)
         if name == "enumerate":
-            return Lst(Tup((NUM, elem_of(a0)))) if a0 is not None else TOP
+            return Lst(Tup((POS, elem_of(a0)))) if a0 is not None else TOP
         if name == "zip":
             return Lst(Tup(tuple(elem_of(a) for a in args)))
         if name in ("max", "min"):
@@ -1427,7 +1447,7 @@ class Interp:
         if isinstance(test, ast.Constant):
             return bool(test.value)
         if isinstance(test, ast.Name):
-            alias = self._bool_alias(fr.fi, test.id)
+            alias = self._bool_alias(fr.fi, test.id, test)
             if alias is not None:
                 return self.truth(alias, env, fr)
         if isinstance(test, ast.UnaryOp) and isinstance(test.op, ast.Not):
@@ -1556,13 +1576,16 @@ class Interp:
             return None
         return None
 
-    def _bool_alias(self, fi, name):
+    def _bool_alias(self, fi, name, at=None):
         """the test expression a local boolean stands for: exactly one `name = <comparison / and / or / not>` in the
-        function, whose operand names are parameters that are never assigned in the function"""
+        function, whose operand names are parameters that keep their value between that definition and the place `at` where
+        the flag is tested (never assigned at all, or assigned only before the definition / after the test - e.g. inside the
+        branches the test selects)"""
         cache = getattr(self, "_bool_alias_cache", None)
         if cache is None:
             cache = self._bool_alias_cache = {}
-        key = (fi.qualname, name)
+        pos_at = (at.lineno, at.col_offset) if at is not None and hasattr(at, "lineno") else None
+        key = (fi.qualname, name, pos_at)
         if key in cache:
             return cache[key]
         out = None
@@ -1572,8 +1595,33 @@ class Interp:
             params = {a.arg for a in fi.params} | {a.arg for a in fi.node.args.kwonlyargs}
             stored = {n.id for n in ast.walk(fi.node) if isinstance(n, ast.Name) and isinstance(n.ctx, ast.Store)}
             used = {n.id for n in ast.walk(asg[0].value) if isinstance(n, ast.Name)}
-            if used and used <= params and not (used & stored) and name not in params:
-                out = asg[0].value
+            if used and used <= params and name not in params:
+                if not (used & stored):
+                    out = asg[0].value
+                else:
+                    d = asg[0]
+                    dpos = (d.lineno, d.col_offset)
+                    stores = [n for n in ast.walk(fi.node) if isinstance(n, ast.Name) and n.id in used and isinstance(n.ctx, ast.Store)]
+                    loops = [l for l in ast.walk(fi.node) if isinstance(l, (ast.For, ast.While, ast.AsyncFor))]
+                    in_loop = any(any(x is d for x in ast.walk(l)) or (at is not None and any(x is at for x in ast.walk(l)) and any(any(x is s_ for x in ast.walk(l)) for s_ in stores)) for l in loops)
+                    between = [n for n in stores if (n.lineno, n.col_offset) >= dpos and (pos_at is None or (n.lineno, n.col_offset) < pos_at)]
+                    if between and at is not None:
+                        # a store in the other arm of an `if` that holds the test cannot reach it
+                        ifs = [i for i in ast.walk(fi.node) if isinstance(i, ast.If)]
+
+                        def exclusive(s_):
+                            for i in ifs:
+                                in_body = any(x is s_ for b_ in i.body for x in ast.walk(b_))
+                                in_else = any(x is s_ for b_ in i.orelse for x in ast.walk(b_))
+                                at_body = any(x is at for b_ in i.body for x in ast.walk(b_))
+                                at_else = any(x is at for b_ in i.orelse for x in ast.walk(b_))
+                                if (in_body and at_else) or (in_else and at_body):
+                                    return True
+                            return False
+
+                        between = [n for n in between if not exclusive(n)]
+                    if not between and not in_loop:
+                        out = asg[0].value
         cache[key] = out
         return out
 
@@ -1588,7 +1636,7 @@ class Interp:
                     env = self.narrow(v, env, branch, fr)
             return env
         if isinstance(test, ast.Name):
-            alias = self._bool_alias(fr.fi, test.id)
+            alias = self._bool_alias(fr.fi, test.id, test)
             if alias is not None:
                 # flag = order is None and size is None; if flag: ...   (operands are never-reassigned parameters)
                 return self.narrow(alias, env, branch, fr)
